@@ -878,3 +878,71 @@ def arith_refusal_atoms(rep, rule, idx, spec, allowed, allow_if=None, what=None)
                 rep.unk(rule, site, what, f"`raise {e}` at line {ln} is guarded by the arithmetic test `{a}`, which is not one of the documented refusals")
     if clean:
         rep.ok(rule, site, what, f"{n} arithmetic atom(s) in refusal conditions, all documented", nontrivial=n > 0)
+
+
+def vector_mux_selectors(rep, rule, idx, spec, what=None):
+    """Mux(sel, a, b) converts `sel` to a single truth value (sel != 0).  A selector that is a concatenation with one bit per
+    element of a collection (Cat over a comprehension / a list / several operands) therefore switches *all* bits of the result
+    together as soon as any element's bit is set: the per-element choice the vector operands suggest is not made."""
+    from .common import get_ctx
+    from ..core import ir as _ir
+    c = get_ctx(idx, spec)
+    site = c.fi.site
+    what = what or "Mux selectors are single conditions"
+    n = 0
+    bad = []
+    for d in c.t.drivers:
+        for e in [c.norm(d.value)] + [c.norm(fr[1]) for fr in d.dsl if fr[0] in ('if', 'elif')]:
+            for x in _ir.walk(e):
+                if x[0] == 'call' and x[1] == ('name', 'Mux') and len(x[2]) == 3:
+                    n += 1
+                    s = x[2][0]
+                    if s[0] == 'call' and s[1] == ('name', 'Cat') and (len(s[2]) > 1 or (len(s[2]) == 1 and s[2][0][0] in ('gen', 'listacc', 'list', 'tuple'))):
+                        bad.append((d, s))
+    seen = set()
+    for d, s in bad:
+        k = _ir.show(s)
+        if k in seen:
+            continue
+        seen.add(k)
+        rep.bad(rule, site, f"Mux({_ir.show(s)[:60]}, ...)", "the selector is a concatenation with one bit per element; Mux tests it as a whole, so one "
+                "element's bit switches the result for every element (use a bitwise mask, or select per element)", line=d.lineno)
+    if not bad:
+        rep.ok(rule, site, what, f"{n} Mux expression(s), none with a concatenation as selector", nontrivial=False)
+
+
+def pairwise_reductions(rep, rule, idx, module_rel):
+    """zip(xs[0::2], xs[1::2]) pairs neighbours; with an odd number of elements the last one has no partner and zip() stops
+    before it.  A reduction tree built this way loses that element unless the function carries it over explicitly
+    (xs[-1] / len(xs) % 2 / zip_longest)."""
+    import ast as _ast
+    n = 0
+    for f in idx.all_functions_deep() if hasattr(idx, "all_functions_deep") else idx.all_functions():
+        if f.module.rel != module_rel:
+            continue
+        for c_ in _ast.walk(f.node):
+            if not (isinstance(c_, _ast.Call) and isinstance(c_.func, _ast.Name) and c_.func.id == "zip" and len(c_.args) == 2):
+                continue
+            a, b = c_.args
+
+            def stride(e):
+                if isinstance(e, _ast.Subscript) and isinstance(e.value, _ast.Name) and isinstance(e.slice, _ast.Slice) and \
+                        isinstance(e.slice.step, _ast.Constant) and e.slice.step.value == 2 and e.slice.upper is None:
+                    lo = e.slice.lower
+                    return e.value.id, (0 if lo is None else lo.value if isinstance(lo, _ast.Constant) else None)
+                return None
+            sa_, sb_ = stride(a), stride(b)
+            if not sa_ or not sb_ or sa_[0] != sb_[0] or {sa_[1], sb_[1]} != {0, 1}:
+                continue
+            n += 1
+            xs = sa_[0]
+            src = _ast.unparse(f.node)
+            carried = any(k in src for k in (f"{xs}[-1]", f"len({xs}) % 2", f"len({xs}) & 1", "zip_longest"))
+            what = f"zip({xs}[0::2], {xs}[1::2]) pairs every element"
+            if carried:
+                rep.unk(rule, f.site, what, "the function mentions the odd element; whether it is carried over on every level is not decided")
+            else:
+                rep.bad(rule, f.site, what, f"when `{xs}` has an odd number of elements the last one has no partner and zip() drops it: in a "
+                        "reduction tree that element (here: the response of the last subordinate of a level) never reaches the result",
+                        line=c_.lineno)
+    return n
